@@ -35,11 +35,21 @@ EXTENDS Integers, Sequences, FiniteSets, TLC
 -----------------------------------------------------------------------------
 \* Property predicates (shared with the monitor)
 
+\* (the `@type` / `@typeAlias` comments are annotations for Apalache, which discharges the inductive invariant IndInv at
+\* the end of this module; TLC ignores them)
+\* @typeAlias: url = {sch: Str, auth: Str, form: Str};
+\* @typeAlias: req = {kind: Str, cls: $url};
+\* @typeAlias: doc = {kind: Str, match: Str, pkce: Bool, script: Bool};
+\* @typeAlias: prmf = {res: Str, as: Seq($url), path: Bool, other: $url};
+\* @typeAlias: asmf = {iss: Str, pkce: Bool, ip: Bool, cimd: Bool, auth: $url, tok: $url, reg: $url, intro: $url, other: $url};
+\* @typeAlias: asmu = {mode: Str, ip: Bool, cimd: Bool, reg: $url, auth: $url, tok: $url};
+OAuthFlow_aliases == TRUE
 \* URL classes: scheme class x authority class x form
 ScriptSchemes == {"js", "data", "vbs"}          \* javascript:, data:, vbscript:
 Schemes == {"https", "http"} \cup ScriptSchemes
 Authorities == {"lo", "rem", "none"}            \* loopback host / any other host / no authority component
 Forms == {"hier", "opaque"}                     \* scheme://authority/path  /  scheme:rest
+\* @type: (Str, Str, Str) => $url;
 U(s, a, f) == [sch |-> s, auth |-> a, form |-> f]
 \* an authority exists exactly in the hierarchical form; http(s) URLs are hierarchical
 URLClasses == {c \in [sch : Schemes, auth : Authorities, form : Forms] :
@@ -55,15 +65,20 @@ Vbs == U("vbs", "none", "opaque")
 JsLo == U("js", "lo", "hier")                    \* javascript://localhost/%0Aalert(1), data://127.0.0.1/..., vbscript://[::1]/...
 JsRem == U("js", "rem", "hier")                  \* javascript://evil.example/%0Aalert(1)
 
+\* @type: $url => Bool;
 Script(c) == c.sch \in ScriptSchemes
 \* "an https or loopback URL": https, or a loopback authority under a scheme that is not script-capable
 \* (a URL with a script-capable scheme is never a safe request target, whatever its authority)
+\* @type: $url => Bool;
 Safe(c) == ~Script(c) /\ (c.sch = "https" \/ c.auth = "lo")
 
 \* the two checks of the code (oauthex/oauth2.go); an absent URL passes both
+\* @type: $url => Bool;
 CodeSchemeOK(c) == ~Script(c)                                           \* checkURLScheme: deny-list javascript/data/vbscript
+\* @type: $url => Bool;
 CodeHttpsOrLo(c) == c = NoURL \/ c.sch = "https" \/ c.auth = "lo"       \* checkHTTPSOrLoopback: !IsLoopback(host) && scheme != "https" fails
 
+\* @type: $req => Bool;
 ReqSafe(r) == Safe(r.cls)
 \* Relation of an issuer identifier (the `issuer` of a metadata document, PreregisteredClient.Issuer,
 \* the RFC 9207 `iss` parameter) to the identifier it is compared with.  RFC 8414 3.3 wants the two
@@ -92,10 +107,14 @@ IssMatch(rel) == rel \in IssSame \cup IssEquiv
 CodeIssMatch(rel) == rel \in IssSame
 
 \* resource identifiers must be identical (RFC 9728 3.3); issuers: see above
+\* @type: $doc => Bool;
 MatchOK(d) == IF d.kind = "prm" THEN d.match = "exact" ELSE IssMatch(d.match)
+\* @type: $doc => Bool;
 PkceOK(d) == d.kind = "asm" => d.pkce
+\* @type: $doc => Bool;
 ScriptFree(d) == ~d.script
 \* the three document checks the property names
+\* @type: $doc => Bool;
 DocOK(d) == MatchOK(d) /\ PkceOK(d) /\ ScriptFree(d)
 StateOK(s) == s = "equal"
 \* RFC 9207: a received iss must equal the issuer (simple string comparison: every other relation,
@@ -117,6 +136,7 @@ ChallengesCore == {"none", "bearer", "hdr_https", "hdr_other", "hdr_multi", "hdr
 ChallengeLeads == {}
 Challenges == ChallengesCore \cup ChallengeLeads
 McpURLs == {"https", "lo", "http"}
+\* @type: Str => $url;
 McpCls(m) == CASE m = "https" -> Https [] m = "lo" -> Lo [] m = "http" -> Http
 
 PRMHttpFail == {"404", "500", "neterr", "badct", "badjson"}
@@ -144,17 +164,23 @@ ASMIssDocs == {"iss_port", "iss_scheme", "iss_userinfo", "iss_query", "iss_fragm
 \* checkHTTPSOrLoopback -- and `other` (jwks_uri [jwks_], service_documentation / op_policy_uri / op_tos_uri [doc_],
 \* revocation_endpoint [rev_]), which only get checkURLScheme.  Every field takes the non-loopback http class and the
 \* script-capable scheme in its three shapes: opaque, hierarchical with a loopback authority, hierarchical with another one.
-ASMFieldVar ==
-  [auth_http  |-> <<"auth", Http>>,  auth_js  |-> <<"auth", Js>>,  auth_data |-> <<"auth", Data>>,
-   auth_jslo  |-> <<"auth", JsLo>>,  auth_jsrem  |-> <<"auth", JsRem>>,
-   tok_http   |-> <<"tok", Http>>,   tok_js   |-> <<"tok", Js>>,   tok_jslo   |-> <<"tok", JsLo>>,   tok_jsrem   |-> <<"tok", JsRem>>,
-   reg_http   |-> <<"reg", Http>>,   reg_js   |-> <<"reg", Js>>,   reg_jslo   |-> <<"reg", JsLo>>,   reg_jsrem   |-> <<"reg", JsRem>>,
-   intro_http |-> <<"intro", Http>>, intro_js |-> <<"intro", Js>>, intro_jslo |-> <<"intro", JsLo>>, intro_jsrem |-> <<"intro", JsRem>>,
-   rev_http   |-> <<"other", Http>>,
-   jwks_js    |-> <<"other", Js>>,   doc_js   |-> <<"other", Js>>,   rev_js     |-> <<"other", Js>>,
-   jwks_jslo  |-> <<"other", JsLo>>, doc_jslo |-> <<"other", JsLo>>, rev_jslo   |-> <<"other", JsLo>>,
-   jwks_jsrem |-> <<"other", JsRem>>]
-ASMFieldDocs == DOMAIN ASMFieldVar
+\* (the table is a set of triples <<document, field, class>> and ASMFieldVar the function it denotes: the same value as the
+\* record [auth_http |-> <<"auth", Http>>, ...], in a form that Apalache can type - a record cannot be applied to a name that
+\* is not a literal)
+\* @type: Set(<<Str, Str, $url>>);
+ASMFieldTab ==
+  {<<"auth_http",   "auth", Http>>,  <<"auth_js",   "auth", Js>>,  <<"auth_data",  "auth", Data>>,
+   <<"auth_jslo",   "auth", JsLo>>,  <<"auth_jsrem",   "auth", JsRem>>,
+   <<"tok_http",    "tok", Http>>,   <<"tok_js",    "tok", Js>>,   <<"tok_jslo",    "tok", JsLo>>,   <<"tok_jsrem",    "tok", JsRem>>,
+   <<"reg_http",    "reg", Http>>,   <<"reg_js",    "reg", Js>>,   <<"reg_jslo",    "reg", JsLo>>,   <<"reg_jsrem",    "reg", JsRem>>,
+   <<"intro_http",  "intro", Http>>, <<"intro_js",  "intro", Js>>, <<"intro_jslo",  "intro", JsLo>>, <<"intro_jsrem",  "intro", JsRem>>,
+   <<"rev_http",    "other", Http>>,
+   <<"jwks_js",     "other", Js>>,   <<"doc_js",    "other", Js>>,   <<"rev_js",      "other", Js>>,
+   <<"jwks_jslo",   "other", JsLo>>, <<"doc_jslo",  "other", JsLo>>, <<"rev_jslo",    "other", JsLo>>,
+   <<"jwks_jsrem",  "other", JsRem>>}
+ASMFieldDocs == {t[1] : t \in ASMFieldTab}
+\* @type: Str -> <<Str, $url>>;
+ASMFieldVar == [o \in ASMFieldDocs |-> LET e == CHOOSE t \in ASMFieldTab : t[1] = o IN <<e[2], e[3]>>]
 ASMDocs == ASMFlagDocs \cup {"pkce_plain", "iss_other", "iss_sub", "no_pkce"} \cup ASMFieldDocs \cup ASMIssDocs
 ASMOutcomes == ASM4xx \cup ASMHttpFail \cup ASMDocs
 \* what the well-known locations AFTER a fatal one hold ready (never read by the code as specified):
@@ -183,6 +209,7 @@ AuthIsses == {"absent", "equal", "different", "slash",
 TokenOutcomes == {"good", "expiring", "400", "500", "noat", "neterr"}
 
 \* class of the resource_metadata URL in the challenge (NoURL: no such parameter)
+\* @type: Str => $url;
 ChHdr(c) == CASE c \in {"hdr_https", "hdr_other", "hdr_multi", "scope403"} -> Https
               [] c = "hdr_lo" -> Lo
               [] c = "hdr_http" -> Http
@@ -192,8 +219,10 @@ ChHdr(c) == CASE c \in {"hdr_https", "hdr_other", "hdr_multi", "scope403"} -> Ht
               [] OTHER -> NoURL
 
 \* facts of a protected-resource metadata document
+\* @type: Str => $prmf;
 PRMFacts(o) ==
-  LET b == [res |-> "exact", as |-> <<Https>>, path |-> FALSE, other |-> NoURL] IN
+  LET \* @type: $prmf;
+      b == [res |-> "exact", as |-> <<Https>>, path |-> FALSE, other |-> NoURL] IN
   CASE o = "good"      -> b
     [] o = "good_lo"   -> [b EXCEPT !.as = <<Lo>>]
     [] o = "good_path" -> [b EXCEPT !.path = TRUE]
@@ -218,10 +247,17 @@ PRMFacts(o) ==
 \* cimd: client_id_metadata_document_supported, rg: "ep" = a registration endpoint is present.
 \* `other`: jwks_uri, service_documentation, op_policy_uri, op_tos_uri, revocation_endpoint (never https-checked)
 \* auth, tok, reg, intro, other are URL classes (NoURL: the field is absent)
+\* the URL field k of the facts f / f with its URL field k set to c (k is a value, not a literal: spelled out per field)
+\* @type: ($asmf, Str) => $url;
+FieldURL(f, k) == CASE k = "auth" -> f.auth [] k = "tok" -> f.tok [] k = "reg" -> f.reg [] k = "intro" -> f.intro [] k = "other" -> f.other
+\* @type: ($asmf, Str, $url) => $asmf;
+SetFieldURL(f, k, c) == [f EXCEPT !.auth = IF k = "auth" THEN c ELSE @, !.tok = IF k = "tok" THEN c ELSE @, !.reg = IF k = "reg" THEN c ELSE @,
+                                  !.intro = IF k = "intro" THEN c ELSE @, !.other = IF k = "other" THEN c ELSE @]
+\* @type: (Str, Bool, Bool, Str) => $asmf;
 ASMFacts(o, ip, cimd, rg) ==
   LET b == [iss |-> "exact", pkce |-> TRUE, ip |-> ip, cimd |-> cimd, auth |-> Https, tok |-> Https,
             reg |-> (IF rg = "ep" THEN Https ELSE NoURL), intro |-> NoURL, other |-> NoURL] IN
-  CASE o \in ASMFieldDocs -> [b EXCEPT ![ASMFieldVar[o][1]] = ASMFieldVar[o][2]]
+  CASE o \in ASMFieldDocs -> SetFieldURL(b, ASMFieldVar[o][1], ASMFieldVar[o][2])
     [] o = "good"       -> b
     [] o = "good_lo"    -> [b EXCEPT !.auth = Lo, !.tok = Lo, !.reg = (IF rg = "ep" THEN Lo ELSE NoURL)]
     [] o = "iss_slash"  -> [b EXCEPT !.iss = "slash"]
@@ -239,7 +275,9 @@ ASMFacts(o, ip, cimd, rg) ==
     [] o = "iss_dot"      -> [b EXCEPT !.iss = "dot"]
     [] o = "no_pkce"    -> [b EXCEPT !.pkce = FALSE]
 
+\* @type: $prmf => Bool;
 PRMScript(f) == (\E i \in DOMAIN f.as : Script(f.as[i])) \/ Script(f.other)
+\* @type: $asmf => Bool;
 ASMScript(f) == \E c \in {f.auth, f.tok, f.reg, f.intro, f.other} : Script(c)
 
 HasCimd(rc) == rc \in {"cimd", "cimd_pre", "cimd_dcr", "all"}
@@ -247,21 +285,53 @@ HasPre(rc) == rc \in {"pre", "cimd_pre", "pre_dcr", "all"}
 HasDcr(rc) == rc \in {"dcr", "cimd_dcr", "pre_dcr", "all"}
 
 -----------------------------------------------------------------------------
-VARIABLES pc,
-          ch, mcp,       \* challenge variant, MCP URL class ("-" once no longer read)
-          plist, idx,    \* candidate PRM locations / index of the next candidate (PRM, then ASM)
+VARIABLES
+          \* @type: Str;
+          pc,
+          \* challenge variant, MCP URL class ("-" once no longer read)
+          \* @type: Str;
+          ch,
+          \* @type: Str;
+          mcp,
+          \* candidate PRM locations / index of the next candidate (PRM, then ASM)
+          \* @type: Seq(Str);
+          plist,
+          \* @type: Int;
+          idx,
+          \* @type: {cls: $url, path: Bool};
           srv,           \* authorization server chosen: [cls, path]
+          \* @type: $asmu;
           asm,           \* metadata in use: [mode, ip, cimd, reg, auth, tok]
-          client, pre,   \* resolved registration; relation of the pre-registered issuer
-          ares, tokq, result,
+          \* resolved registration; relation of the pre-registered issuer
+          \* @type: Str;
+          client,
+          \* @type: Str;
+          pre,
+          \* @type: {state: Str, iss: Str};
+          ares,
+          \* @type: Str;
+          tokq,
+          \* @type: Str;
+          result,
+          \* @type: Str;
           ts,            \* "init" | "new"  (what TokenSource() returns)
           \* ghost / history
+          \* @type: Str;
           cause,         \* the fatal outcome at an ASM location while the later locations are still to be scripted
+          \* @type: Set($req);
           requested,     \* set of [kind, cls] requested through the http.Client
+          \* @type: Set($doc);
           used,          \* set of documents trusted: [kind, match, pkce, script]
+          \* @type: Set($doc);
           served,        \* set of documents the authorization server in use answered with: [kind, match, pkce, script]
+          \* @type: Bool;
           predef,        \* the predefined endpoints of the authorization server were adopted
-          exchanged, credsTo, failed
+          \* @type: Bool;
+          exchanged,
+          \* @type: Set(Str);
+          credsTo,
+          \* @type: Bool;
+          failed
 
 vars == <<pc, ch, mcp, plist, idx, srv, asm, client, pre, ares, tokq, result, ts, cause, requested, used, served, predef,
           exchanged, credsTo, failed>>
@@ -294,21 +364,23 @@ ParseChallenge ==
   /\ UNCHANGED <<ch, mcp, srv, asm, client, pre, ares, tokq, ts, requested, used, exchanged, credsTo>> /\ UNCHANGED Aux
 
 \* getProtectedResourceMetadata: one candidate location; any error moves on to the next candidate
+\* (FetchPRMNext / FetchASMFatal are top-level rather than LET-defined inside the actions: Apalache finds the assignments of
+\* an action only in operators it inlines)
+FetchPRMNext == /\ idx' = idx + 1
+                /\ UNCHANGED <<pc, ch, mcp, srv, used, result, failed>>
 FetchPRM(loc, o) ==
   /\ pc = "prm" /\ idx <= Len(plist) /\ plist[idx] = loc
   /\ LET cls == IF loc = "hdr" THEN ChHdr(ch) ELSE McpCls(mcp)
-         next == /\ idx' = idx + 1
-                 /\ UNCHANGED <<pc, ch, mcp, srv, used, result, failed>>
      IN IF ~CodeSchemeOK(cls) \/ ~CodeHttpsOrLo(cls)     \* checkURLScheme / checkHTTPSOrLoopback(metadataURL) fails: no request
-        THEN o = "skip" /\ next /\ UNCHANGED requested
+        THEN o = "skip" /\ FetchPRMNext /\ UNCHANGED requested
         ELSE /\ o \in PRMOutcomes
              /\ requested' = requested \cup {[kind |-> "prm", cls |-> cls]}
-             /\ IF o \in PRMHttpFail THEN next
+             /\ IF o \in PRMHttpFail THEN FetchPRMNext
                 ELSE LET f == PRMFacts(o) IN
                   IF \/ f.res # "exact"                                              \* prm.Resource != resourceURL
                      \/ \E i \in DOMAIN f.as : ~CodeSchemeOK(f.as[i]) \/ ~CodeHttpsOrLo(f.as[i])   \* checkURLScheme, checkHTTPSOrLoopback
                      \/ ~CodeSchemeOK(f.other)                                        \* checkURLScheme on the four other URL fields
-                  THEN next
+                  THEN FetchPRMNext
                   ELSE IF Len(f.as) = 0
                   THEN Fail("no_as") /\ UNCHANGED <<idx, ch, mcp, srv, used>>
                   ELSE /\ srv' = [cls |-> f.as[1], path |-> f.path]
@@ -324,22 +396,22 @@ FallbackRootAS ==
   /\ pc' = "asm" /\ idx' = 1 /\ ch' = "-" /\ mcp' = "-"
   /\ UNCHANGED <<plist, asm, client, pre, ares, tokq, result, ts, requested, used, exchanged, credsTo, failed>> /\ UNCHANGED Aux
 
+\* @type: Seq(Str);
 ASMList == IF srv.path THEN <<"oauth_ins", "oidc_ins", "oidc_app">> ELSE <<"oauth", "oidc">>
 ASMLocs == {"oauth", "oidc", "oauth_ins", "oidc_ins", "oidc_app"}
 
 \* GetAuthServerMetadata / oauthex.GetAuthServerMeta: 4xx moves on, anything else is fatal.
 \* A fatal outcome before the last location leaves the later locations unread: the environment scripts
 \* them in UnreadASM (pc "asmrest"; `cause` keeps the fatal outcome until then).
+FetchASMFatal(o) == IF ~ASMFatalStops
+                    THEN idx' = idx + 1 /\ UNCHANGED <<pc, asm, used, result, failed, cause>>      \* (witness configuration)
+                    ELSE IF idx < Len(ASMList)
+                    THEN /\ pc' = "asmrest" /\ cause' = o /\ result' = "asm" /\ failed' = TRUE
+                         /\ UNCHANGED <<idx, asm, used>>
+                    ELSE Fail("asm") /\ UNCHANGED <<idx, asm, used, cause>>
 FetchASM(loc, o, ip, cimd, rg) ==
   /\ pc = "asm" /\ idx <= Len(ASMList) /\ ASMList[idx] = loc
-  /\ LET fatal == IF ~ASMFatalStops
-                  THEN idx' = idx + 1 /\ UNCHANGED <<pc, asm, used, result, failed, cause>>      \* (witness configuration)
-                  ELSE IF idx < Len(ASMList)
-                  THEN /\ pc' = "asmrest" /\ cause' = o /\ result' = "asm" /\ failed' = TRUE
-                       /\ UNCHANGED <<idx, asm, used>>
-                  ELSE Fail("asm") /\ UNCHANGED <<idx, asm, used, cause>>
-     IN
-     IF ~CodeSchemeOK(srv.cls) \/ ~CodeHttpsOrLo(srv.cls)        \* checkURLScheme / checkHTTPSOrLoopback(metadataURL) fails: no request
+  /\ IF ~CodeSchemeOK(srv.cls) \/ ~CodeHttpsOrLo(srv.cls)        \* checkURLScheme / checkHTTPSOrLoopback(metadataURL) fails: no request
      THEN /\ o = "skip" /\ ip = FALSE /\ cimd = FALSE /\ rg = "ep"
           /\ Fail("asm") /\ UNCHANGED <<idx, asm, used, requested, cause, served>>
      ELSE /\ o \in ASMOutcomes
@@ -348,15 +420,15 @@ FetchASM(loc, o, ip, cimd, rg) ==
              ELSE ip = FALSE /\ cimd = FALSE /\ rg = "ep"
           /\ requested' = requested \cup {[kind |-> "asm", cls |-> srv.cls]}
           /\ IF o \in ASM4xx THEN idx' = idx + 1 /\ UNCHANGED <<pc, asm, used, result, failed, cause, served>>
-             ELSE IF o \in ASMHttpFail THEN fatal /\ UNCHANGED served
+             ELSE IF o \in ASMHttpFail THEN FetchASMFatal(o) /\ UNCHANGED served
              ELSE LET f == ASMFacts(o, ip, cimd, rg)
                       d == [kind |-> "asm", match |-> f.iss, pkce |-> f.pkce, script |-> ASMScript(f)] IN
                /\ served' = served \cup {d}
                /\ IF \/ ~CodeIssMatch(f.iss)                                \* authutil.IssuersEqual
                      \/ ~f.pkce                                              \* len(CodeChallengeMethodsSupported) == 0
-                     \/ \E k \in ASMSchemeChecked : ~CodeSchemeOK(f[k])                        \* checkURLScheme on nine fields
+                     \/ \E k \in ASMSchemeChecked : ~CodeSchemeOK(FieldURL(f, k))                        \* checkURLScheme on nine fields
                      \/ \E c \in {f.auth, f.tok, f.reg, f.intro} : ~CodeHttpsOrLo(c)           \* checkHTTPSOrLoopback on four
-                  THEN fatal
+                  THEN FetchASMFatal(o)
                   ELSE /\ asm' = [mode |-> "doc", ip |-> f.ip, cimd |-> f.cimd, reg |-> f.reg, auth |-> f.auth, tok |-> f.tok]
                        /\ used' = used \cup {d}
                        /\ pc' = "reg" /\ idx' = 0 /\ UNCHANGED <<result, failed, cause>>
@@ -496,4 +568,67 @@ TokenOnlyIfChecksPassed ==
                 /\ \A p \in credsTo : PreOK(p)
 ResultKnown == pc \in {"done", "halt"} => result \in Results
 
+-----------------------------------------------------------------------------
+\* Inductive invariant (discharged by Apalache: Init => IndInv and IndInv /\ Next => IndInv', hence the nine design
+\* invariants above hold in every reachable state whatever the length of the behaviour, for the full variant sets of
+\* this module = OAuthFlow_mc.cfg).  The module has no CONSTANTS: CInit is trivial.
+CInit == TRUE
+PCs == {"setup", "parse", "prm", "asm", "asmrest", "reg", "code", "checkstate", "checkiss", "exchange", "install", "done", "halt"}
+URLs == URLClasses \cup {NoURL}
+ReqSet == [kind : {"prm", "asm", "reg", "token"}, cls : URLs]
+DocSet == [kind : {"prm", "asm"}, match : IssRels, pkce : BOOLEAN, script : BOOLEAN]
+PreVals == {"-", "unset"} \cup IssRels
+\* @type: Set(Seq(Str));
+PLists == {<<>>, <<"path", "root">>, <<"hdr", "path", "root">>}
+IndTypeOK ==
+  /\ pc \in PCs /\ ch \in Challenges \cup {"-"} /\ mcp \in McpURLs \cup {"-"}
+  /\ plist \in PLists /\ idx \in 0..4
+  /\ srv \in [cls : URLs, path : BOOLEAN]
+  /\ asm \in [mode : {"-", "doc", "predef"}, ip : BOOLEAN, cimd : BOOLEAN, reg : URLs, auth : URLs, tok : URLs]
+  /\ client \in {"-", "cimd", "prereg", "dcr"} /\ pre \in PreVals
+  /\ ares \in [state : AuthStates \cup {"-"}, iss : AuthIsses \cup {"-"}]
+  /\ tokq \in {"-", "good", "expiring"} /\ result \in Results \cup {"-"} /\ ts \in {"init", "new"}
+  /\ cause \in ASMOutcomes \cup {"-"}
+  /\ requested \in SUBSET ReqSet /\ used \in SUBSET DocSet /\ served \in SUBSET DocSet
+  /\ predef \in BOOLEAN /\ exchanged \in BOOLEAN /\ credsTo \in SUBSET PreVals /\ failed \in BOOLEAN
+\* what each step of the flow has established when the program counter is where it is
+IndPhase ==
+  \* discovery of the resource metadata: the challenge and the MCP URL are known, a "hdr" candidate has a URL
+  /\ pc \in {"parse", "prm"} => ch \in Challenges /\ mcp \in McpURLs
+  /\ pc = "prm" => /\ ch \notin {"malformed", "other403"}
+                   /\ plist = (IF ChHdr(ch) # NoURL THEN <<"hdr">> ELSE <<>>) \o <<"path", "root">>
+                   /\ idx >= 1
+  \* discovery of the authorization server metadata: there is a server URL; once a location has been asked it is safe
+  /\ pc \in {"asm", "asmrest"} => srv.cls # NoURL /\ idx >= 1
+  /\ (pc = "asm" /\ idx > 1) => Safe(srv.cls)
+  \* nothing was served / adopted before the metadata discovery ends, and the predefined endpoints are adopted only
+  \* when no location answered with a document
+  /\ pc \in {"setup", "parse", "prm", "asm"} => served = {} /\ ~predef
+  /\ predef => served = {}
+  \* the endpoints in use are safe request targets
+  /\ pc \in {"reg", "code", "checkstate", "checkiss", "exchange"} => Safe(asm.tok)
+  /\ pc = "reg" => asm.reg = NoURL \/ Safe(asm.reg)
+  \* failure is final
+  /\ pc = "asmrest" => result = "asm" /\ failed
+  /\ failed => pc \in {"asmrest", "done", "halt"}
+  \* the authorization response has passed the checks that precede the program counter
+  /\ pc = "checkiss" => ares.state = "equal"
+  /\ pc \in {"exchange", "install"} => ares.state = "equal" /\ IssOK(ares.iss, asm.ip)
+  /\ exchanged => pc \in {"install", "done", "halt"} /\ StateOK(ares.state) /\ IssOK(ares.iss, asm.ip)
+  /\ pc = "install" => exchanged /\ tokq \in {"good", "expiring"}
+  /\ ts = "new" => pc \in {"done", "halt"} /\ ~failed /\ exchanged
+  \* pre-registered credentials in use are bound to the issuer
+  /\ (pc \in {"code", "checkstate", "checkiss", "exchange"} /\ client = "prereg") => PreOK(pre)
+  /\ \A d \in used : DocOK(d)
+IndInv ==
+  /\ IndTypeOK
+  /\ IndPhase
+  /\ OnlySafeURLs /\ UsedOnlyIfMatching /\ PKCERequired /\ NoScriptSchemes /\ ExchangeOnlyIfStateAndIss
+  /\ PreregBoundToIssuer /\ NoFallbackAfterRejected /\ TokenOnlyIfChecksPassed /\ ResultKnown
+IndInit == IndInv
+\* sanity of the step case: action invariants, each must be VIOLATED with --init=IndInit --length=1 (IndInit is satisfiable
+\* and its states have successors through these steps)
+SanityNoInstall == ~(ts = "init" /\ ts' = "new")
+SanityNoPredef == ~(~predef /\ predef')
+SanityNoDcrRequest == ~(pc = "reg" /\ requested' # requested)
 =============================================================================
